@@ -3,11 +3,11 @@ namespace TJ.MiniC.Hoare
 open TJ TJ.MiniC TJ.MiniC.PermC TJ.Gen.MiniC
 
 /-- the callback fields of the state object: the user callback and its (public) user-data pointer -/
-structure PCb (X : Array LByte) (ud : Nat) : Prop where
-  cb : readLE X 72 8 = some (userCb, .pub)
+structure PCb (X : Array LByte) (ud : Nat) (cbv : Nat := userCb) : Prop where
+  cb : readLE X 72 8 = some (cbv, .pub)
   ud : readLE X 80 8 = some (ud, .pub)
 
-theorem PCb.toV {X : Array LByte} {ud : Nat} (h : PCb X ud) : PCbV X ud .pub := ⟨h.cb, h.ud, by decide⟩
+theorem PCb.toV {X : Array LByte} {ud cbv : Nat} (h : PCb X ud cbv) : PCbV X ud .pub cbv := ⟨h.cb, h.ud, by decide⟩
 
 theorem pobj_keep {O W : Nat → Prop} {X' X : Array LByte} {b b0 : Nat} {V C : Bytes} {rc rl : Nat} (k : KeepW O W ⟨X', b⟩ ⟨X, b0⟩) (ho : PObjV X V C rc rl)
     (hO : ∀ q, q < 72 → ¬ O q) (hW : ∀ q, 64 ≤ q → q < 72 → ¬ W q) : PObjV X' V C rc rl := by
@@ -16,13 +16,13 @@ theorem pobj_keep {O W : Nat → Prop} {X' X : Array LByte} {b b0 : Nat} {V C : 
     readLE_pub_keep X' X 4 64 rc (fun q h1 h2 => (k.2.2 q (hO q (by omega))).2 (hW q h1 (by omega))) ho.hrc, ho.rcb,
     readLE_pub_keep X' X 4 68 rl (fun q h1 h2 => (k.2.2 q (hO q (by omega))).2 (hW q (by omega) (by omega))) ho.hrl⟩
 
-theorem pcb_keep {O W : Nat → Prop} {X' X : Array LByte} {b b0 : Nat} {ud : Nat} (k : KeepW O W ⟨X', b⟩ ⟨X, b0⟩) (h : PCb X ud)
-    (hOW : ∀ q, 72 ≤ q → q < 88 → ¬ O q ∧ ¬ W q) : PCb X' ud :=
-  ⟨readLE_pub_keep X' X 8 72 userCb (fun q h1 h2 => (k.2.2 q (hOW q h1 (by omega)).1).2 (hOW q h1 (by omega)).2) h.cb,
+theorem pcb_keep {O W : Nat → Prop} {X' X : Array LByte} {b b0 : Nat} {ud cbv : Nat} (k : KeepW O W ⟨X', b⟩ ⟨X, b0⟩) (h : PCb X ud cbv)
+    (hOW : ∀ q, 72 ≤ q → q < 88 → ¬ O q ∧ ¬ W q) : PCb X' ud cbv :=
+  ⟨readLE_pub_keep X' X 8 72 cbv (fun q h1 h2 => (k.2.2 q (hOW q h1 (by omega)).1).2 (hOW q h1 (by omega)).2) h.cb,
    readLE_pub_keep X' X 8 80 ud (fun q h1 h2 => (k.2.2 q (hOW q (by omega) (by omega)).1).2 (hOW q (by omega) (by omega)).2) h.ud⟩
 
-theorem pcb_vle {X' X : Array LByte} {ud : Nat} (h : PCb X ud) (hk : ∀ q, 72 ≤ q → ORel VLe X'[q]? X[q]?) : PCb X' ud :=
-  ⟨readLE_pub_keep X' X 8 72 userCb (fun q h1 _ => hk q h1) h.cb, readLE_pub_keep X' X 8 80 ud (fun q h1 _ => hk q (by omega)) h.ud⟩
+theorem pcb_vle {X' X : Array LByte} {ud cbv : Nat} (h : PCb X ud cbv) (hk : ∀ q, 72 ≤ q → ORel VLe X'[q]? X[q]?) : PCb X' ud cbv :=
+  ⟨readLE_pub_keep X' X 8 72 cbv (fun q h1 _ => hk q h1) h.cb, readLE_pub_keep X' X 8 80 ud (fun q h1 _ => hk q (by omega)) h.ud⟩
 
 /-- geometry of a `tinyjambu_prng_generate` activation -/
 structure GGeo where
@@ -35,7 +35,9 @@ structure GGeo where
   doff : Nat
   n : Nat
   ud : Nat
+  cbv : Nat
   XD0 : Array LByte
+  hk : CbOk cbv
   hbp : bp < n0
   hbd : bd < n0
   hpd : bp ≠ bd
@@ -57,7 +59,7 @@ structure GI (G : GGeo) (mem0 : Array Block) (g : GS) (acc : Bytes) (r : Nat) (e
   hn : acc.length + r = G.n
   ent : s.ent = g.ent
   msz : s.mem.size = G.n0 + 1
-  hP : ∃ Xp, s.mem[G.bp]? = some ⟨Xp, G.baseP⟩ ∧ Xp.size = G.xps ∧ PObjV Xp g.V g.C g.rc g.rl ∧ PCb Xp G.ud
+  hP : ∃ Xp, s.mem[G.bp]? = some ⟨Xp, G.baseP⟩ ∧ Xp.size = G.xps ∧ PObjV Xp g.V g.C g.rc g.rl ∧ PCb Xp G.ud G.cbv
   hH : ∃ XH, s.mem[G.n0]? = some ⟨XH, 0⟩ ∧ XH.size = 32
   hD : ∃ XD, s.mem[G.bd]? = some ⟨XD, G.based⟩ ∧ XD.size = G.XD0.size ∧ BytesV XD G.doff acc ∧ ∀ q, (q < G.doff ∨ G.doff + acc.length ≤ q) → ORel VLe XD[q]? G.XD0[q]?
   oth : ∀ j, j < G.n0 → j ≠ G.bp → j ≠ G.bd → ORel (KeepW (fun _ => False) (fun _ => False)) s.mem[j]? mem0[j]?
@@ -95,13 +97,13 @@ theorem gen_reseed_chk (G : GGeo) (mem0 : Array Block) (g : GS) (acc : Bytes) (r
     refine runs_ite_true 1 ?_ (by decide) ?_
     · simp only [evalE, e2_8, e2_9, reduceCtorEq, if_false, BinOp.needsPub2, BinOp.needsPub1, Bool.false_and, Bool.or_self, Bool.false_eq_true, binVal, Ty.signed, gt_iff_lt,
         show g.rl < g.rc from hc, decide_true, b2n, if_true, Lab.join_pub_pub]
-    refine (prng_reseed_call_ret 10 E2 { s2 with leak := .br true :: s2.leak } (.var 0) G.bp Xp G.baseP g.V g.C g.rc g.rl G.ud .pub (by simp only [evalE, e2k 0 (by decide), gi.e0, reduceCtorEq, if_false])
+    refine (prng_reseed_call_ret G.cbv G.hk 10 E2 { s2 with leak := .br true :: s2.leak } (.var 0) G.bp Xp G.baseP g.V g.C g.rc g.rl G.ud .pub (by simp only [evalE, e2k 0 (by decide), gi.e0, reduceCtorEq, if_false])
       (by show s2.mem[G.bp]? = _; rw [hm2]; exact hPm) ho hcb.toV hal (by rw [hXps]; exact hlt) (by show s2.mem.size + 5 < _; rw [hm2, gi.msz]; omega)).weaken ?_
     intro sig e' s' ⟨hsig, he', hent', hsz', ⟨X', g1, g2, g3, g4⟩, g5⟩
     have hent' : s'.ent = s2.ent.tail := hent'
     have hsz' : s'.mem.size = s2.mem.size := hsz'
     have g5 : ∀ j, j ≠ G.bp → ORel (KeepW (fun _ => False) (fun _ => False)) s'.mem[j]? s.mem[j]? := fun j hj => by have := g5 j hj; rw [show ({ s2 with leak := .br true :: s2.leak } : St).mem = s.mem from hm2] at this; exact this
-    obtain ⟨e's, e'k⟩ := keepE E2 10 (if (s2.ent.headD ([], 0)).2 = 32 then 1 else 0, .pub) (by decide) e2s
+    obtain ⟨e's, e'k⟩ := keepE E2 10 (if cbRet G.cbv (s2.ent.headD ([], 0)) = 32 then 1 else 0, .pub) (by decide) e2s
     have hhd : s2.ent = g.ent := by rw [hent2]; exact gi.ent
     rw [show ({ s2 with leak := .br true :: s2.leak } : St).ent = g.ent from hhd] at g3
     obtain ⟨XH, hHm, hHs⟩ := gi.hH
